@@ -190,6 +190,7 @@ func engineGen(g *eng.Gen, variant string, i int) {
 	case "share":
 		g.Share = true
 		g.CatchBias = i%2 == 0
+		g.NestedDefaults = i%3 == 0 // shared slice nodes with nested defaults and PostTransforms that write in place
 	case "catch":
 		g.CatchBias = true
 	case "noposts":
@@ -354,6 +355,9 @@ func streamEngine(seed uint64, n int, driver, corpus, dump, variant string) (*Su
 				sum.addMismatch(prop, m)
 			}
 		}
+	}
+	if w := eng.EnumsIntact(); w != "" {
+		sum.addViolation("C19", Mismatch{Case: "every case of this stream (enum slices are shared by content, with spare capacity)", What: "an execution wrote into the enum slice given to OneOf: " + w})
 	}
 	keys := make([]string, 0, len(sum.Hist))
 	for k := range sum.Hist {
